@@ -124,6 +124,29 @@ pub open spec fn has_op(s: Seq<char>) -> bool { s.contains('|') || s.contains('&
 """
 
 
+# shell::in_assignment_prefix, shared by U-EXP2 / U-EXP3: which NAME=value words are exempt from data tagging (C13): only the untagged
+# ones the line starts with, i.e. exactly the words that are taken off the line as assignments before operators are looked for
+ASSIGN_PREFIX = r"""
+pub uninterp spec fn spec_is_assign(t: Seq<char>) -> bool;
+#[verifier::external_body]
+pub fn is_assignment_word(text: &str) -> (r: bool) ensures r == spec_is_assign(text@) { unimplemented!() }
+pub open spec fn assign_prefix(toks: Seq<Token>, k: int) -> bool {
+    forall|j: int| 0 <= j <= k && j < toks.len() ==> (#[trigger] toks[j]).0@.len() == 0 && spec_is_assign(toks[j].1@)
+}
+//@FN in_assignment_prefix
+"""
+
+
+def in_assignment_prefix_fn():
+    from vx.gen import Fn, Loop, Rw
+    return Fn('src/shell.rs', 'in_assignment_prefix', ret='r', props=('C13',),
+              rewrites=[Rw('types::Tokens', 'Tokens', required=False, rule='R0')],
+              let_types={'i': 'usize'},
+              ensures=[('C13.assignment_prefix.only_the_untagged_assignments_a_line_starts_with', 'r == assign_prefix(tokens@, idx as int)')],
+              loops={0: Loop(invariant=[('C13.inv.assignment_prefix.so_far', 'i <= tokens@.len() && i <= idx + 1 && assign_prefix(tokens@, i as int - 1)')],
+                             decreases='tokens@.len() - i')})
+
+
 def has_operator_fn():
     from vx.gen import Fn
     return Fn('src/shell.rs', 'has_operator_char', ret='r', props=('C13',),
